@@ -1,6 +1,260 @@
 import Blue.Proofs.Gc
+import Blue.Proofs.GcPolicy
 import Blue.Proofs.Conserve
-/-! Property C05: the theorems the check builds and audits (spike inventory; the build phase
-    completes the list from DESIGN Appendix C.0). -/
-#print axioms Blue.Cursor.compaction_conserves
-#print axioms Blue.Cursor.children_perm_merged
+import Blue.Proofs.CompactCut
+import Blue.Proofs.Compaction
+import Blue.Proofs.ConstsTieC05
+/-! # Property C05 — compaction conserves every version; GC discards only what policy permits
+
+Property theorems only (helper lemmas live in `Blue/Proofs/{Gc,GcPolicy,Conserve,CompactCut,
+Compaction}.lean`).
+
+Models (all executable, all run by the driver against the real crates):
+* `Blue/Model/Gc.lean` — `GarbageCollector::next` (`gcLoopD`: `key_backing`, the tombstone list,
+  `return_key`) over the determiner tree `Det` (`VersionsDeterminer`, `ExpiresDeterminer`,
+  `AnyDeterminer`, `AllDeterminer`; `now` a parameter) built from the policy AST `Policy`;
+  `gcLoop`/`gcGroup` are the `versions = n` instance (`gc_versions_instance`).
+* `Blue/Model/GcParse.lean` — the nom parser of the policy language.
+* `Blue/Model/Compact.lean` — the compaction loop over the merging-cursor model and the cut of
+  the merged run into output files.
+
+An input `Ent K` is `(key, timestamp, is-tombstone)`; the collector's output is the list of
+retained `(key, timestamp)`s. -/
+namespace Blue.Props.C05
+open Blue.Gc Blue.Cursor
+
+/-! ## garbage collection -/
+
+/-- the general collector at `versions = n` is the collector the `versions` theorems are about -/
+theorem gc_versions_instance {K : Type} [DecidableEq K] (n now : Nat) (m : List (Ent K)) :
+    gcP (.versions n) now none m = gc n m := gcP_versions n now m
+
+/-- for an input that is a sequence of runs with pairwise distinct keys (what sortedness gives)
+    the collector's output is the concatenation of the per-run outputs -/
+theorem gc_runs {K : Type} [DecidableEq K] (n : Nat) (hn : 1 ≤ n) (gs : List (K × List (Ent K)))
+    (hr : Runs gs) : gc n (flat gs) = gs.flatMap (fun p => gcGroup n p.1 p.2 [] 0) :=
+  Blue.Gc.gc_runs n hn gs hr
+
+/-- the same for *every* policy (`versions`, `ttl_micros`, any nesting of `any`/`all`), every
+    `now` and every initial determiner key: key by key, each with a fresh determiner -/
+theorem gc_runs_every_policy {K : Type} [DecidableEq K] (p : Policy) (hp : p.WF) (now : Nat)
+    (k0 : Option K) (gs : List (K × List (Ent K))) (hr : Runs gs) :
+    gcP p now k0 (flat gs) = gs.flatMap (fun g => gcLoopD g.2 g.1 [] (p.det now none)) :=
+  gcP_runs p hp now k0 gs hr
+
+/-- GC removes only: the output is a sub-list of the input, for every policy and every input
+    (sorted or not) -/
+theorem gc_output_sublist {K : Type} [DecidableEq K] (p : Policy) (now : Nat) (k0 : Option K)
+    (m : List (Ent K)) : (gcP p now k0 m).Sublist (ents m) := gcP_sublist p now k0 m
+
+/-- the determiner is asked about each value with the tombstones directly above it; the sequence
+    of questions is a function of the input alone, and the output is what the answers select -/
+theorem gc_factors_through_decisions {K : Type} [DecidableEq K] (m : List (Ent K)) (kb : K)
+    (tombs : List Nat) (d : Det K) :
+    gcLoopD m kb tombs d = emitAll (callsOf m kb tombs) (d.run (callsOf m kb tombs)) :=
+  gcLoopD_eq_emitAll m kb tombs d
+
+/-- `any(..)` retains the union of what its members retain … -/
+theorem any_is_union {K : Type} [DecidableEq K] (ds : List (Det K)) (cs : List (Call K)) (i : Nat)
+    (h : i < cs.length) :
+    (Det.run (.any ds) cs)[i]? = some (ds.any fun d => (d.run cs).getD i false) :=
+  Blue.Gc.any_is_union ds cs i h
+
+/-- … and `all(..)` the intersection -/
+theorem all_is_intersection {K : Type} [DecidableEq K] (ds : List (Det K)) (cs : List (Call K))
+    (i : Nat) (h : i < cs.length) :
+    (Det.run (.all ds) cs)[i]? = some (ds.all fun d => (d.run cs).getD i false) :=
+  Blue.Gc.all_is_intersection ds cs i h
+
+/-- never the entry that decides the current value of a key (`versions = n`) -/
+theorem newest_value_kept {K : Type} [DecidableEq K] (n : Nat) (hn : 1 ≤ n) (k : K) (e : Ent K) (g : List (Ent K))
+    (he : e.tomb = false) : ∃ out, gcGroup n k (e :: g) [] 0 = (k, e.ts) :: out :=
+  Blue.Gc.newest_value_kept n hn k e g he
+
+/-- never the entry that decides the current value of a key, for every policy that selects newest
+    versions: `versions`; `ttl_micros = m` at `now ≤ m` (lsmtk: `now = 0`, O-3); `any` with such
+    a member; `all` of such members -/
+theorem newest_value_kept_every_policy {K : Type} [DecidableEq K] (p : Policy) (now : Nat)
+    (hp : p.selectsNewest now = true) (e : Ent K) (g : List (Ent K)) (he : e.tomb = false) :
+    ∃ out, gcLoopD (e :: g) e.key [] (p.det now none) = (e.key, e.ts) :: out :=
+  newest_value_kept_policy p now hp e g he
+
+/-- a key whose newest version is a tombstone stays deleted: whatever is kept for it starts with
+    one of its leading tombstones, or nothing at all is kept (tombstone and everything it shadows
+    go together) -/
+theorem tombstone_stays {K : Type} [DecidableEq K] (n : Nat) (k : K) (g : List (Ent K)) (tombs : List Nat)
+    (h : tombs ≠ []) :
+    gcGroup n k g tombs 0 = [] ∨
+    ∃ t out, gcGroup n k g tombs 0 = (k, t) :: out ∧ (t ∈ tombs ∨ ∃ e ∈ g, e.tomb = true ∧ e.ts = t) :=
+  Blue.Gc.tombstone_stays n k g tombs h
+
+/-- for *every* policy and one key's versions newest first (tombstones `lead`, then the newest
+    value `v`, then the rest): either nothing is kept for the key, or what is kept starts with `v`
+    under the oldest tombstone above it — a tombstone and everything it shadows go together, and
+    when the policy lets the newest value go (ttl expiry, `any()`), the whole key goes -/
+theorem key_keeps_head_or_goes {K : Type} [DecidableEq K] (k : K) (lead : List (Ent K)) (v : Ent K)
+    (rest : List (Ent K)) (hl : ∀ e ∈ lead, e.tomb = true ∧ e.key = k) (hv : v.tomb = false)
+    (hvk : v.key = k) (hr : AllKey k rest)
+    (hts : (lead ++ v :: rest).Pairwise (fun a b => b.ts < a.ts)) (d : Det K) :
+    gcLoopD (lead ++ v :: rest) k [] d = []
+      ∨ ∃ out, gcLoopD (lead ++ v :: rest) k [] d = emit k (lead.map (·.ts)) v.ts ++ out :=
+  Blue.Gc.key_keeps_head_or_goes k lead v rest hl hv hvk hr hts d
+
+/-- a key with only tombstones left is dropped entirely, whatever the policy (sound only because
+    GC runs at the last level) -/
+theorem only_tombstones_dropped {K : Type} [DecidableEq K] (g : List (Ent K))
+    (h : ∀ e ∈ g, e.tomb = true) (kb : K) (tombs : List Nat) (d : Det K) :
+    gcLoopD g kb tombs d = [] := Blue.Gc.only_tombstones_dropped g h kb tombs d
+
+/-- observation O-3: every `collector(cursor, now)` call of lsmtk passes `now = 0` (regenerated
+    from the source each run), and at `now = 0` a `ttl_micros` determiner retains whatever it is
+    asked about: in this store a ttl policy never expires anything -/
+theorem ttl_inert_in_lsmtk {K : Type} [DecidableEq K] :
+    (∀ n ∈ Blue.Generated.lsmtkCollectorNow, n = 0)
+      ∧ ∀ (m : Nat) (k0 : Option K) (k : K) (tombs : List Nat) (ts : Nat),
+          (((Policy.expires m).det 0 k0 : Det K).retain k tombs ts).1 = true :=
+  ⟨Blue.ConstsTie.lsmtk_collector_now, fun m k0 k tombs ts => expires_now0 m k0 k tombs ts⟩
+
+/-- the keywords and error contexts of the parser model are those of sst/src/gc.rs, and lsmtk's
+    default policy parses to `versions = 1` (regenerated from the source each run) -/
+theorem policy_language_from_source :
+    Parse.keywords = Blue.Generated.gcKeywords ∧ Parse.contexts = Blue.Generated.gcContexts
+      ∧ (match Parse.parsePolicy (Parse.bytesOf Blue.Generated.lsmtkDefaultGcPolicy) with
+          | .ok (.versions n) => n == 1
+          | _ => false) = true :=
+  ⟨Blue.ConstsTie.gc_keywords, Blue.ConstsTie.gc_contexts, Blue.ConstsTie.lsmtk_default_policy⟩
+
+/-- once `n` versions are counted nothing more of the key is kept -/
+theorem gcGroup_exhausted {K : Type} [DecidableEq K] (n : Nat) (k : K) (g : List (Ent K)) (tombs : List Nat) (c : Nat)
+    (h : n ≤ c) : gcGroup n k g tombs c = [] := Blue.Gc.gcGroup_exhausted n k g tombs c h
+
+/-! ## a compaction that is not a garbage collection -/
+
+/-- the union of the input tables is the merged list, up to order -/
+theorem children_perm_merged {E : Type} (k : Nat) (M : List (E × Nat)) (h : ∀ x ∈ M, x.2 < k) :
+    (((List.range k).map (childList M)).flatten).Perm (M.map (·.1)) :=
+  Blue.Cursor.children_perm_merged k M h
+
+/-- cutting a run at any cut points and concatenating gives it back -/
+theorem cut_flatten {E : Type} (ns : List Nat) (l : List E) : (cut ns l).flatten = l :=
+  Blue.Cursor.cut_flatten ns l
+
+/-- whatever the cut vector (every target/minimum file size, every split hint), the output files
+    hold a permutation of the union of the inputs -/
+theorem compaction_conserves {E : Type} (k : Nat) (M : List (E × Nat)) (h : ∀ x ∈ M, x.2 < k)
+    (cuts : List Nat) :
+    ((cut cuts (M.map (·.1))).flatten).Perm (((List.range k).map (childList M)).flatten) :=
+  Blue.Cursor.compaction_conserves k M h cuts
+
+/-- the compaction loop over the merging-cursor model reads exactly the merged list -/
+theorem merged_is_M {E : Type} {lt : E → E → Bool} {M : List (E × Nat)} {k : Nat}
+    (st : StrictTotal lt) (fam : Family lt M k) (tables : List (List E))
+    (ht : tables.Perm ((List.range k).map (childList M))) :
+    Blue.Compact.merged lt tables = M.map (·.1) := Blue.Compact.merged_eq st fam tables ht
+
+/-- the pipeline the driver runs against `MergingCursor` + `SstMultiBuilder` conserves -/
+theorem pipeline_conserves {E : Type} {lt : E → E → Bool} {M : List (E × Nat)} {k : Nat}
+    (st : StrictTotal lt) (fam : Family lt M k) (tables : List (List E))
+    (ht : tables.Perm ((List.range k).map (childList M))) (cuts : List Nat) :
+    ((Blue.Compact.cut cuts (Blue.Compact.merged lt tables)).flatten).Perm tables.flatten :=
+  Blue.Compact.pipeline_conserves st fam tables ht cuts
+
+/-- … so a read at any timestamp still sees what it saw before -/
+theorem compaction_reads_unchanged {K : Type} [DecidableEq K] (pre : Blue.Spec.Tagged K)
+    (post outs : List (List (Blue.Spec.Ver K)))
+    (h : Blue.Spec.NewerAbove (pre.map (·.2) ++ post)) (hclosed : Blue.Spec.Closed pre)
+    (hsame : ∀ e, e ∈ outs.flatten ↔ e ∈ (Blue.Spec.inputs pre).flatten)
+    (houts : Blue.Spec.NewerAbove outs) (k : K) (t : Nat) :
+    Blue.Spec.load (Blue.Spec.kept pre ++ outs ++ post) k t = Blue.Spec.load (pre.map (·.2) ++ post) k t :=
+  Blue.Spec.compaction_reads_unchanged pre post outs h hclosed hsame houts k t
+
+/-- a GC output (a subset of the inputs, `gc_output_sublist`) placed below what stays keeps
+    "newer above" — the order invariant point reads rely on -/
+theorem gc_preserves_newer_above {K : Type} [DecidableEq K] (pre : Blue.Spec.Tagged K)
+    (post outs : List (List (Blue.Spec.Ver K)))
+    (h : Blue.Spec.NewerAbove (pre.map (·.2) ++ post)) (hclosed : Blue.Spec.Closed pre)
+    (hsub : ∀ e ∈ outs.flatten, e ∈ (Blue.Spec.inputs pre).flatten) (houts : Blue.Spec.NewerAbove outs) :
+    Blue.Spec.NewerAbove (Blue.Spec.kept pre ++ outs ++ post) :=
+  Blue.Spec.compaction_preserves pre post outs h hclosed hsub houts
+
+/-! ## non-vacuity: concrete inputs meet the hypotheses, and the collector really collects -/
+
+/-- two keys; the first has `T@5 T@4 V@3 V@2`, the second `V@9` -/
+def sample : List (Nat × List (Ent Nat)) :=
+  [(1, [⟨1, 5, true⟩, ⟨1, 4, true⟩, ⟨1, 3, false⟩, ⟨1, 2, false⟩]), (2, [⟨2, 9, false⟩])]
+
+example : Runs sample := by
+  refine ⟨?_, ?_, ?_⟩
+  · intro p hp; simp only [sample, List.mem_cons, List.not_mem_nil, or_false] at hp
+    rcases hp with rfl | rfl <;> intro e he <;> simp at he <;> rcases he with rfl | rfl | rfl | rfl <;> rfl
+  · intro p hp; simp only [sample, List.mem_cons, List.not_mem_nil, or_false] at hp
+    rcases hp with rfl | rfl <;> simp
+  · decide
+example : gc 2 (flat sample) = [(1, 4), (1, 3), (2, 9)] := by decide
+example : gc 1 (flat sample) = [(2, 9)] := by decide
+example : gcP (.all [.versions 3, .any [.expires 7, .versions 1]]) 10 (some 0) (flat sample)
+    = [(1, 4), (1, 3), (2, 9)] := by decide
+example : gcP (.any []) 0 (none : Option Nat) (flat sample) = [] := by decide
+example : (Policy.all [.versions 3, .any [.expires 7, .versions 1]]).WF := by
+  simp [Policy.WF, Policy.WFL]
+example : (Policy.all [.versions 3, .any [.expires 7, .versions 1]]).selectsNewest 10 = true := by decide
+example : (Policy.any []).selectsNewest 0 = false := by decide
+example : (Policy.expires 5).selectsNewest 0 = true ∧ (Policy.expires 5).selectsNewest 6 = false := by decide
+example : ∀ x ∈ [((10 : Nat), 0), (20, 1), (30, 0)], x.2 < 2 := by decide
+/-- hypotheses of `key_keeps_head_or_goes`, and both outcomes occur -/
+def lead2 : List (Ent Nat) := [⟨1, 5, true⟩, ⟨1, 4, true⟩]
+def val3 : Ent Nat := ⟨1, 3, false⟩
+def rest2 : List (Ent Nat) := [⟨1, 2, false⟩]
+example : (∀ e ∈ lead2, e.tomb = true ∧ e.key = 1) ∧ AllKey 1 rest2
+    ∧ (lead2 ++ val3 :: rest2).Pairwise (fun a b => b.ts < a.ts) := by
+  refine ⟨by decide, ?_, by decide⟩
+  intro e he; simp [rest2] at he; rw [he]
+example : gcLoopD (lead2 ++ val3 :: rest2) 1 [] ((Policy.versions 2).det 0 none)
+    = emit 1 (lead2.map (·.ts)) val3.ts ++ [] := by decide
+example : gcLoopD (lead2 ++ val3 :: rest2) 1 [] ((Policy.versions 1).det 0 none) = [] := by decide
+
+/-- a strict total order and a family for `merged_is_M` / `pipeline_conserves` -/
+example : StrictTotal (fun a b : Nat => decide (a < b)) :=
+  ⟨by intro a; simp, by intro a b c; simp; omega, by intro a b; simp; omega⟩
+example : Family (fun a b : Nat => decide (a < b)) [(10, 0), (20, 1), (30, 0)] 2 :=
+  ⟨by decide, by decide⟩
+example : Blue.Compact.cut [1, 2] (Blue.Compact.merged (fun a b : Nat => decide (a < b)) [[10, 30], [20]])
+    = [[10], [20, 30], []] := by decide
+
+/-- hypotheses of `compaction_reads_unchanged`: two input components with two versions of key 7,
+    one output file -/
+example : Blue.Spec.NewerAbove ([(true, [((7 : Nat), 5)]), (true, [(7, 3)])].map (·.2) ++ [])
+    ∧ Blue.Spec.Closed [(true, [((7 : Nat), 5)]), (true, [(7, 3)])]
+    ∧ (∀ e, e ∈ [[((7 : Nat), 5), (7, 3)]].flatten ↔
+        e ∈ (Blue.Spec.inputs [(true, [((7 : Nat), 5)]), (true, [(7, 3)])]).flatten)
+    ∧ Blue.Spec.NewerAbove [[((7 : Nat), 5), (7, 3)]] := by
+  refine ⟨?_, ?_, ?_, ?_⟩
+  · simp [Blue.Spec.NewerAbove]
+  · simp [Blue.Spec.Closed]
+  · intro e; simp [Blue.Spec.inputs]
+  · simp [Blue.Spec.NewerAbove]
+
+end Blue.Props.C05
+
+#print axioms Blue.Props.C05.gc_versions_instance
+#print axioms Blue.Props.C05.gc_runs
+#print axioms Blue.Props.C05.gc_runs_every_policy
+#print axioms Blue.Props.C05.gc_output_sublist
+#print axioms Blue.Props.C05.gc_factors_through_decisions
+#print axioms Blue.Props.C05.any_is_union
+#print axioms Blue.Props.C05.all_is_intersection
+#print axioms Blue.Props.C05.newest_value_kept
+#print axioms Blue.Props.C05.newest_value_kept_every_policy
+#print axioms Blue.Props.C05.tombstone_stays
+#print axioms Blue.Props.C05.gcGroup_exhausted
+#print axioms Blue.Props.C05.key_keeps_head_or_goes
+#print axioms Blue.Props.C05.only_tombstones_dropped
+#print axioms Blue.Props.C05.ttl_inert_in_lsmtk
+#print axioms Blue.Props.C05.policy_language_from_source
+#print axioms Blue.Props.C05.children_perm_merged
+#print axioms Blue.Props.C05.cut_flatten
+#print axioms Blue.Props.C05.compaction_conserves
+#print axioms Blue.Props.C05.merged_is_M
+#print axioms Blue.Props.C05.pipeline_conserves
+#print axioms Blue.Props.C05.compaction_reads_unchanged
+#print axioms Blue.Props.C05.gc_preserves_newer_above
